@@ -244,9 +244,7 @@ func (ti *typeInfo) compare(ref *encref.Node, results []result, skip func(vi int
 		for _, mem := range ref.Members {
 			v, has := m[mem.Key]
 			if !has {
-				if mem.Pres == encref.Must {
-					missing = append(missing, mem)
-				}
+				missing = append(missing, mem) // optional ones only matter when a stray key could be theirs
 				continue
 			}
 			seen++
@@ -298,10 +296,22 @@ func (ti *typeInfo) compare(ref *encref.Node, results []result, skip func(vi int
 			d := "missing"
 			for si := range strays {
 				if strays[si].owner == f && !strays[si].used {
+					// the member is there under another key: judge the key once
+					// and the value under the key it has
 					strays[si].used = true
 					d = "wrong-key"
+					if !encref.Match(mem.Val, m[strays[si].key]) {
+						dv := "wrong-value:" + nodeClass(mem.Val)
+						if tc := treeClass(m[strays[si].key]); tc != nodeClass(mem.Val) {
+							dv += "/" + tc
+						}
+						cf.add(fkey{f, dv}, vi, mem, "", 0)
+					}
 					break
 				}
+			}
+			if d == "missing" && mem.Pres != encref.Must {
+				continue
 			}
 			cf.add(fkey{f, d}, vi, mem, "", 0)
 		}
